@@ -242,6 +242,16 @@ class Interp:
             return (a > b) - (a < b)
         if isinstance(a, str) and isinstance(b, str):
             return (a > b) - (a < b)
+        if isinstance(a, Sym) and isinstance(b, str) or isinstance(a, str) and isinstance(b, Sym):
+            sym, lit, sign = (a, b, 1) if isinstance(a, Sym) else (b, a, -1)
+            if self.o.is_none(sym):
+                raise Undecided(f"ordering comparison involving None: {a!r} ? {b!r} (TypeError at run time)")
+            if lit == "":
+                e = getattr(self.o, "is_empty", lambda s_: None)(sym)
+                if e is None:
+                    raise Undecided(f"is {sym} the empty string?")
+                return 0 if e else sign          # "" is the least string
+            raise Undecided(f"symbol against literal {lit!r}")
         if isinstance(a, tuple) and isinstance(b, tuple):
             for x, y in zip(a, b):
                 if not self.equal(x, y):
@@ -276,6 +286,14 @@ class Interp:
         if type(a) is type(b) and isinstance(a, (bool, str)):
             return a == b
         if isinstance(a, Sym) and isinstance(b, str) or isinstance(a, str) and isinstance(b, Sym):
+            sym, lit = (a, b) if isinstance(a, Sym) else (b, a)
+            if self.o.is_none(sym):
+                return False
+            if lit == "":
+                e = getattr(self.o, "is_empty", lambda s_: None)(sym)
+                if e is None:
+                    raise Undecided(f"is {sym} the empty string?")
+                return e
             raise Undecided(f"symbol against literal: {a!r} == {b!r}")
         return False
 
